@@ -136,11 +136,16 @@ def discharge(obligations, rounds=None, jobs=None, seed=0, both=False, progress=
                     ob.result, ob.backend = "unsat", be_
                     if progress:
                         progress(ob)
+                elif res == "sat":
+                    # a model of (path condition and not goal): definitive, no further attempts
+                    ob.result, ob.backend = "sat", be_
                 else:
                     nxt.append(k)
             pending = sorted(nxt)
         for k in pending:
             ob = obligations[k]
+            if ob.result == "sat":
+                continue
             kinds = [r[1] for r in ob.all_results]
             ob.result = "sat" if "sat" in kinds else "unknown"
             ob.backend = ob.all_results[-1][0] if ob.all_results else None
